@@ -137,6 +137,21 @@ fn main() {
                     shard_no += 1;
                 }
             }
+            // regression tier: the committed replay files of this property
+            let mut regressions = Vec::new();
+            if let Ok(rd) = std::fs::read_dir(vdir.join("replays").join(&id)) {
+                let mut files: Vec<_> = rd.filter_map(|e| e.ok()).map(|e| e.path()).collect();
+                files.sort();
+                for f in files.into_iter().filter(|f| f.extension().map_or(false, |e| e == "json")) {
+                    let child = Command::new(&exe)
+                        .args(["replay", &id, f.to_str().unwrap(), "--tier", tier.name()])
+                        .stdin(Stdio::null())
+                        .stdout(Stdio::piped())
+                        .spawn()
+                        .expect("cannot spawn replay");
+                    regressions.push((f, child));
+                }
+            }
             let mut report = Report::default();
             let mut broken = Vec::new();
             let budget = std::time::Duration::from_secs(tier.pick(900, 4 * 3600));
@@ -164,6 +179,21 @@ fn main() {
                     None => broken.push(format!("shard {mode}-{i} produced no report (status {status:?})")),
                 }
             }
+            let n_regressions = regressions.len();
+            for (f, child) in regressions {
+                match child.wait_with_output() {
+                    Ok(o) if o.status.code() == Some(0) => {}
+                    Ok(o) if o.status.code() == Some(1) => {
+                        let out = String::from_utf8_lossy(&o.stdout).to_string();
+                        report.violations.push(Violation {
+                            message: format!("regression replay failed: {}", out.lines().next().unwrap_or("")),
+                            replay: f.to_string_lossy().to_string(),
+                        });
+                    }
+                    other => broken.push(format!("replay of {} did not finish: {other:?}", f.display())),
+                }
+            }
+            report.extra.insert("regression_replays".into(), serde_json::json!(n_regressions));
             let _ = std::fs::remove_dir_all(&work);
             let ctx = Ctx {
                 id: id.clone(),
